@@ -208,6 +208,12 @@ func generatedBatchModels(r *rand.Rand) []*batchModel {
 		mk: func(n int, r *rand.Rand) []tensor.Tensor { return []tensor.Tensor{f32T(r, 1, n, 3), f32T(r, 2, n, 1)} },
 		bytes: buildModel([]*onnx.NodeProto{nd("Gemm", []string{"x", "w", "c"}, []string{"y"})},
 			map[string]tensor.Tensor{"w": f32T(r, 1, 3, 4)}, []string{"x", "c"}, []int{2, 2}, []string{"y"})})
+	// 6a'. Gemm with an explicit beta other than 1 and a bias VECTOR, followed by a second Gemm: a batch of one
+	// must come out as a (1,M) matrix like any other batch
+	add(&batchModel{name: "gemm-beta-vector-bias-two-layers", inputs: []string{"x"}, inAxis: []int{0}, outputs: []string{"y"}, outAxis: []int{0},
+		mk: one(func(n int) []int { return []int{n, 3} }, 1),
+		bytes: buildModel([]*onnx.NodeProto{nd("Gemm", []string{"x", "w1", "b1"}, []string{"a"}, aF("beta", 0.5)), nd("Gemm", []string{"a", "w2", "b2"}, []string{"y"}, aF("beta", 2), aF("alpha", 0.5))},
+			map[string]tensor.Tensor{"w1": f32T(r, 1, 3, 4), "b1": f32T(r, 1, 4), "w2": f32T(r, 1, 4, 2), "b2": f32T(r, 1, 2)}, []string{"x"}, []int{2}, []string{"y"})})
 	// 6b. shapes that coincide with the batch size: x (N,1) against a weight vector (M) broadcasts to (N,M)
 	// whatever N is (N = M included); x (N,T,1) against (T)
 	for _, M := range []int{2, 3, 5} {
